@@ -225,6 +225,8 @@ class MockCA:
                 "meta": {"termsOfService": self.url("/tos")}}
 
     def kind_of(self, method, path):
+        if self.parse_redirected(path) is not None:
+            return "redirected"       # a request arriving at a redirected-to location
         if path == "/directory":
             return "directory"
         if path == "/new-nonce":
@@ -265,6 +267,8 @@ class MockCA:
         rec = self.ev(**rec)   # the logged object itself: later annotations (sig_ok, ...) land in the log
         if self.o["delay_ms"]:
             time.sleep(self.o["delay_ms"] / 1000.0)
+        if kind == "redirected":
+            return self.serve_redirected(rq, method, path, jws, rec)
         if jws is not None:
             self.annotate(jws, rec, path, kind == "newAccount")
         rule = self.match_rule(kind, nth, gidx, rec)
@@ -350,6 +354,67 @@ class MockCA:
                          "protected_b64": jws["j"]["protected"], "payload_b64": jws["j"]["payload"],
                          "sig_b64": jws["j"]["signature"]})
         return bool(r.get("valid")), r
+
+    # ------------------------------------------------------------------ redirections
+    # rule answer {"redirect": 301|302|303|307|308, "hops": k, "to": STYLE, "nonce": "fresh"|"none"} (any request
+    # kind; "nonce": "none" = no answer of the chain carries a Replay-Nonce): the request is answered with that
+    # status and a Location; the location redirects again, k
+    # redirections in all (k = -1: for ever), and the last one serves the ORIGINAL resource.  Locations are
+    # /redir/<status>/<style>/<hops left>/<original path>.  STYLE: "rel" an absolute-path reference, "relpath" a
+    # relative-path reference (resolved against the URL that was answered), "abs" an absolute URL, "host" an
+    # absolute URL naming the server by its other loopback name (127.0.0.1 <-> localhost); anything starting
+    # with "/" or "http" is sent as it is (one hop).  Requests arriving at a redirected-to location are logged
+    # with rk = "redirected", via = the kind of the original resource, hops_left; a POST arriving there is
+    # decoded and judged like any other POST (its protected url cannot be the URL it arrived at).
+    def parse_redirected(self, path):
+        if not path.startswith("/redir/"):
+            return None
+        p = path.split("/", 5)
+        if len(p) < 6 or not p[2].isdigit():
+            return None
+        left = -1 if p[4].startswith("inf") else int(p[4]) if p[4].isdigit() else 0
+        return {"status": int(p[2]), "style": p[3], "left": left, "orig": "/" + p[5],
+                "n": int(p[4][3:] or 0) if p[4].startswith("inf") else 0}
+
+    def redirect_answer(self, ans, cur_path, orig, hop):
+        status = int(ans.get("redirect", hop["status"] if hop else 302))
+        if hop is None:
+            style = ans.get("to", "rel")
+            if ans.get("nonce", "fresh") == "none" and not (style.startswith("/") or style.startswith("http")):
+                style += "-nn"          # the whole chain answers without Replay-Nonce
+            hops = int(ans.get("hops", ans.get("times", 1)))
+            left, n = (-1, 0) if hops < 0 else (hops - 1, 0)
+        else:
+            style = hop["style"]
+            left, n = (-1, hop["n"] + 1) if hop["left"] < 0 else (hop["left"] - 1, 0)
+        if style.startswith("/") or style.startswith("http"):
+            loc = style
+        else:
+            target = "/redir/%d/%s/%s%s" % (status, style, ("inf%d" % n) if left < 0 else str(left), orig)
+            kind = style.split("-")[0]
+            if kind == "abs":
+                loc = self.base + target
+            elif kind == "host":
+                a, b = ("127.0.0.1", "localhost") if "//127.0.0.1:" in self.base else (self.base.split("//")[1].split(":")[0], "127.0.0.1")
+                loc = self.base.replace("//" + a + ":", "//" + b + ":", 1) + target
+            elif kind == "relpath":
+                loc = "../" * (cur_path.count("/") - 1) + target[1:]
+            else:
+                loc = target
+        return {"status": status, "location": loc, "body": "redirected", "ctype": "text/plain",
+                "nonce": "none" if style.endswith("-nn") else ans.get("nonce", "fresh"), "delay_ms": ans.get("delay_ms")}
+
+    def serve_redirected(self, rq, method, path, jws, rec):
+        hop = self.parse_redirected(path)
+        via = self.kind_of(method, hop["orig"])
+        rec.update({"via": via, "hops_left": hop["left"], "orig_path": hop["orig"]})
+        if jws is not None:
+            self.annotate(jws, rec, path, via == "newAccount")     # against the URL it ARRIVED at
+        if hop["left"] != 0:
+            ans = self.redirect_answer({}, path, hop["orig"], hop)
+        else:
+            ans = self.conform(via, method, hop["orig"], jws, rec)
+        self.send(rq, ans, rec, method)
 
     def problem(self, status, typ, detail="mock"):
         if self.o.get("problem_style") == "minimal":      # RFC 7807: every member is optional
@@ -738,6 +803,8 @@ class MockCA:
 
     # ------------------------------------------------------------------ answer
     def send(self, rq, ans, rec, method):
+        if "redirect" in ans:        # rule answer {"redirect": status, "hops": k, "to": style}
+            ans = self.redirect_answer(ans, rec["path"], rec["path"], None)
         arec = {"kind": "ans", "for": rec.get("gidx"), "rk": rec["rk"]}
         if ans.get("delay_ms"):
             time.sleep(ans["delay_ms"] / 1000.0)
